@@ -46,6 +46,21 @@ func c08SliceBounds(fset *token.FileSet, e ast.Expr) (string, string, bool) {
 	return lo, hi, true
 }
 
+// if-conditions of fn as full source text
+func c08CondsSrc(fset *token.FileSet, fn *ast.FuncDecl) []string {
+	if fn == nil {
+		return []string{"MISSING"}
+	}
+	var r []string
+	ast.Inspect(fn, func(n ast.Node) bool {
+		if is, ok := n.(*ast.IfStmt); ok {
+			r = append(r, c08Src(fset, is.Cond))
+		}
+		return true
+	})
+	return r
+}
+
 func c08CodecFacts(l *lean) {
 	str := func(name, v string) { l.def(name, "String", leanStrList([]string{v})[1:len(leanStrList([]string{v}))-1], v) }
 	strs := func(name string, v []string) { l.def(name, "List String", leanStrList(v), v) }
@@ -194,4 +209,21 @@ func c08CodecFacts(l *lean) {
 		}
 	}
 	l.def("loadAssignsAfterUnmarshal", "Bool", okAssign, okAssign)
+
+	// NewIblt's clamp, DropLeaves / dropLeavesR conditions, order of Delete / Put in writeWithoutLock
+	strs("newIbltConds", c08CondsSrc(ibF, funcDecl(ib, "NewIblt")))
+	strs("dropLeavesConds", c08Conds(c08Method(tr, "tree", "DropLeaves")))
+	strs("dropLeavesRConds", c08Conds(funcDecl(tr, "dropLeavesR")))
+	var dl []string
+	if fn := c08Method(tr, "tree", "DropLeaves"); fn != nil {
+		ast.Inspect(fn, func(n ast.Node) bool {
+			if as, ok := n.(*ast.AssignStmt); ok && len(as.Lhs) == 1 && strings.HasPrefix(c08Src(trF, as.Lhs[0]), "t.") {
+				dl = append(dl, c08NoSpace(c08Src(trF, as)))
+			}
+			return true
+		})
+	}
+	strs("dropLeavesAssigns", dl)
+	strs("writeWithoutLockWriterCalls", c08Calls(c08Method(ts, "treeStore", "writeWithoutLock"), "writer."))
+	strs("metaGetterConds", append(append(c08CondsSrc(dgF, c08Method(dg, "dag", "getHighestClockValue")), c08CondsSrc(dgF, c08Method(dg, "dag", "getNumberOfTransactions"))...), c08CondsSrc(dgF, c08Method(dg, "dag", "getHead"))...))
 }
